@@ -20,8 +20,8 @@ def run(ctx):
             res = fn(s2, r)
             if res:
                 kinds.append(("!" if fn in linter.UNSAFE else "") + "%s@%s" % res)
-        if not kinds:
-            continue
+        if not kinds or (any("add-mask-to-field" in k for k in kinds) and any("remove-mask-from-field" in k for k in kinds)):
+            continue  # two edits that may undo each other leave no classifiable edit
         pairs.append((s.text(), s2.text()))
         meta.append(kinds)
         schemas.append((s, s2))
